@@ -125,6 +125,8 @@ pub fn run(args: &[String]) {
         }
         "c09" => {
             let mut id = 0;
+            // one generator object lives through the whole run: its answer to each request must be the free function's
+            let mut long_lived = BafflingRecursiveIsotopicPatternGenerator::new();
             for i in 0..n {
                 let ents = match i % 5 { 0 => vec![("C".to_string(), 0, 6), ("H".to_string(), 0, 12), ("O".to_string(), 0, 6)],
                                          1 => vec![("K".to_string(), 0, 300)],
@@ -136,7 +138,9 @@ pub fn run(args: &[String]) {
                                          _ => { let mut e = gen_comp(&mut rng, &faithful, 4, 400); if e.iter().all(|x| x.2 == 0) { e[0].2 = 2; } e } };
                 let reqs: Vec<Req> = match i % 3 {
                     0 => vec![Req::I32(-3), Req::I32(-1), Req::I32(0), Req::I32(1), Req::I32(2), Req::I32(3), Req::I32(rng.range(4, 320) as i32),
-                              Req::I32(i32::MAX), Req::I32(i32::MIN), Req::Usize(0), Req::Usize(1), Req::Usize(rng.below(320) as usize), Req::Opt(None), Req::Opt(Some(1))],
+                              Req::I32(i32::MAX), Req::I32(i32::MIN), Req::Usize(0), Req::Usize(1), Req::Usize(rng.below(320) as usize), Req::Opt(None), Req::Opt(Some(1)),
+                              // on the long-lived generator: each of these needs exactly two more terms than the one before it
+                              Req::I32(3), Req::I32(5), Req::I32(7), Req::I32(9)],
                     1 => (0..8).map(|_| Req::I32(rng.range(-3, 320) as i32)).collect(),
                     _ => vec![Req::F32(0.0), Req::F32(1.0), Req::F32(rng.below(101) as f32 / 100.0), Req::F32(0.9999), Req::F32(0.5)],
                 };
@@ -144,7 +148,14 @@ pub fn run(args: &[String]) {
                 let reqs = if i % 10 == 9 { vec![Req::I32(1), Req::I32(2), Req::I32(6), Req::Usize(12), Req::Opt(Some(3))] } else { reqs };
                 for r in reqs {
                     let charge = *rng.pick(&[0, 0, 1, 2, -1]);
-                    let mut rec = one_case(id, &ents, rng.chance(1, 4), &r, charge, PROTON, "c09");
+                    let as_map = rng.chance(1, 4);
+                    let mut rec = one_case(id, &ents, as_map, &r, charge, PROTON, "c09");
+                    {
+                        let c = build(&ents, as_map);
+                        let spec = r.spec();
+                        let g = guarded(|| long_lived.isotopic_variants(c, spec, charge, PROTON));
+                        rec["gen_out"] = match g { Ok(p) => peaks_json(&p), Err(_) => { long_lived = BafflingRecursiveIsotopicPatternGenerator::new(); json!("panic") } };
+                    }
                     // a request by signal fraction must equal a fixed request for the Poisson estimate of the fraction
                     if let Req::F32(f) = r {
                         let c = build(&ents, false);
@@ -174,12 +185,24 @@ pub fn run(args: &[String]) {
             }
         }
         "c10" => {
+            // neutral masses next to a boundary of the default peak-count estimate, with carriers and charges that carry the ion mass
+            // across it: the number of peaks must not depend on the charge
+            let edge: Vec<(Vec<(String, u16, i32)>, Req, i32, f64)> = vec![
+                (vec![("C".into(), 0, 6), ("H".into(), 0, 12), ("O".into(), 0, 6)], Req::I32(0), -8, 22.989218),
+                (vec![("C".into(), 0, 35), ("H".into(), 0, 55), ("O".into(), 0, 15), ("N".into(), 0, 7)], Req::Opt(None), 1, PROTON),
+                (vec![("C".into(), 0, 12), ("H".into(), 0, 22), ("O".into(), 0, 11)], Req::F32(0.9999), 8, 22.989218),
+                (vec![("C".into(), 0, 2), ("H".into(), 0, 2)], Req::Usize(0), 3, 22.989218),
+                (vec![("C".into(), 0, 60), ("H".into(), 0, 90), ("O".into(), 0, 30)], Req::I32(0), -6, 22.989218),
+                (vec![("C".into(), 0, 10), ("H".into(), 0, 16), ("N".into(), 0, 5), ("O".into(), 0, 13), ("P".into(), 0, 3)], Req::F32(0.99), 7, 22.989218),
+            ];
             for id in 0..n {
+                let fixed = edge.get(id).cloned();
                 let mut ents = gen_comp(&mut rng, &faithful, 4, 300);
                 if ents.iter().all(|x| x.2 == 0) { ents[0].2 = 2; }
-                let req = gen_req(&mut rng);
-                let carrier = *rng.pick(&carriers);
-                let charge = { let z = rng.range(-8, 8) as i32; if z == 0 { 3 } else { z } };
+                let mut req = gen_req(&mut rng);
+                let mut carrier = *rng.pick(&carriers);
+                let mut charge = { let z = rng.range(-8, 8) as i32; if z == 0 { 3 } else { z } };
+                if let Some((e, r, z, cr)) = fixed { ents = e; req = r; charge = z; carrier = cr; }
                 let mut rec = one_case(id, &ents, false, &req, charge, carrier, "c10");
                 let c = build(&ents, false);
                 let neutral = guarded(|| isotopic_variants(c.clone(), req.spec(), 0, carrier));
@@ -264,12 +287,27 @@ pub fn run(args: &[String]) {
                         outs.push(match o { Ok(p) => peaks_json(&p), Err(_) => json!("panic") });
                         hs.push(i);
                     }
-                    (hs, outs)
+                    // stress: two default ("guess") requests of very different mass, alternating out of phase across the threads,
+                    // each answer compared with the single-threaded one
+                    let small = build(&[("H".to_string(), 0, 2), ("O".to_string(), 0, 1)], false);
+                    let large = build(&[("C".to_string(), 0, 1274), ("H".to_string(), 0, 1965), ("N".to_string(), 0, 335), ("O".to_string(), 0, 377), ("S".to_string(), 0, 9)], false);
+                    let want_small = peaks_json(&isotopic_variants(small.clone(), 0, 1, PROTON));
+                    let want_large = peaks_json(&isotopic_variants(large.clone(), 0, 1, PROTON));
+                    let mut bad = 0usize;
+                    let mut first: Option<Value> = None;
+                    let rounds = 1500usize;
+                    for k in 0..rounds {
+                        let use_small = (k + t) % 2 == 0;
+                        let got = guarded(|| isotopic_variants(if use_small { small.clone() } else { large.clone() }, 0, 1, PROTON)).map(|p| peaks_json(&p)).unwrap_or(json!("panic"));
+                        let want = if use_small { &want_small } else { &want_large };
+                        if got != *want { bad += 1; if first.is_none() { first = Some(json!({"round": k, "composition": if use_small { "H2O" } else { "C1274H1965N335O377S9" }, "got_peaks": got.as_array().map(|a| a.len()), "want_peaks": want.as_array().map(|a| a.len())})); } }
+                    }
+                    (hs, outs, rounds, bad, first)
                 })
             }).collect();
             for (t, h) in handles.into_iter().enumerate() {
-                let (hs, outs) = h.join().unwrap();
-                println!("{}", json!({"id": id, "kind": "thread", "thread": t, "h": hs, "outs": outs}));
+                let (hs, outs, rounds, bad, first) = h.join().unwrap();
+                println!("{}", json!({"id": id, "kind": "thread", "thread": t, "h": hs, "outs": outs, "stress_rounds": rounds, "stress_mismatches": bad, "stress_first": first}));
                 id += 1;
             }
         }
